@@ -50,6 +50,13 @@ T read_binary(std::istream & fs)
 
     fs.read(reinterpret_cast<char *>(&rv), sizeof(T));
 
+    if (!fs) {
+        throw std::runtime_error(
+            "Deserialization of covfie vector field failed due to a truncated "
+            "or unreadable input stream"
+        );
+    }
+
     return rv;
 }
 
